@@ -11,6 +11,7 @@ import ASV.Proofs.RegionsReload
 import ASV.Proofs.RegionsRing
 import ASV.Proofs.RegionsRingShort
 import ASV.Proofs.RegionsGiven
+import ASV.Proofs.RegionsRingOne
 namespace ASV.C06
 open ASV ASV.Regions ASV.Components
 
@@ -235,6 +236,34 @@ theorem ring_region_is_shortest_cover (s s' : State) (hL : 0 < s.len) (hi : Inv 
     RegionsShortest s.len s' :=
   createRegions_shortest s s' hL hi hreg hring h
 
+/-- **Circular record with origin-spanning areas — a region lists only one component** (`_partial`).
+    Hypothesis `ArcUnions`: the union of every family of areas grown by joining overlapping families is a
+    well-formed span of the ring shorter than half the record (the set-of-bases reading of "every component is
+    shorter than half the record"; it is not derived here from the executable `halfRecordComponent = false`).
+    Conditional on `create_regions` returning (success on such rings is still open).  Then any two areas a region
+    lists are linked by a chain of overlapping areas: the sweep's running location is always exactly the union of
+    the section's members (`connect_ring_exact`, from `connect_ring_closed` / `connR_covers` / `connR_shortest` of
+    C04), an area joins a section only if it shares a base with that union, and the first/last merge joins two
+    sections only if their unions share a base. -/
+theorem ring_region_lists_one_component_partial (s s' : State) (hcirc : s.circular = true) (hL : 0 < s.len)
+    (hi : Inv s) (hreg : s.regions = []) (hring : ∀ f ∈ s.cands ++ s.subs, RingArea s.len f.loc)
+    (harc : ArcUnions s.len (s.cands ++ s.subs)) (h : createRegions s = .ok s') :
+    ∀ r ∈ s'.regions, ∀ a ∈ s.cands ++ s.subs, ∀ b ∈ s.cands ++ s.subs,
+      a.id ∈ memberIds r → b.id ∈ memberIds r → Linked (areasOf s) (toArea a) (toArea b) :=
+  ring_region_one_component s s' hcirc hL hi hreg hring harc h
+
+/-- … hence, with `ring_components_never_split`: under the same hypotheses two areas of the record are listed by
+    the same region **iff** a chain of overlapping areas links them — the regions' member sets are exactly the
+    connected components, around the origin too. -/
+theorem ring_same_region_iff_linked_partial (s s' : State) (hcirc : s.circular = true) (hL : 0 < s.len)
+    (hi : Inv s) (hreg : s.regions = []) (hring : ∀ f ∈ s.cands ++ s.subs, RingArea s.len f.loc)
+    (harc : ArcUnions s.len (s.cands ++ s.subs)) (h : createRegions s = .ok s')
+    (a b : Feat) (ha : a ∈ s.cands ++ s.subs) (hb : b ∈ s.cands ++ s.subs)
+    (r : Feat) (hr : r ∈ s'.regions) (hma : a.id ∈ memberIds r) :
+    b.id ∈ memberIds r ↔ Linked (areasOf s) (toArea a) (toArea b) :=
+  ⟨fun hmb => ring_region_one_component s s' hcirc hL hi hreg hring harc h r hr a ha b hb hma hmb,
+   fun hl => ring_components_not_split s s' hL hi hreg hring h a b ha hl r hr hma⟩
+
 /-! ### `create_regions(candidate_clusters=…, subregions=…)`: regions are built from exactly the given areas -/
 
 /-- On a record without regions, linear or circular, whatever the locations: after
@@ -278,9 +307,11 @@ example :
   for records **with** origin-spanning areas: proved are the case without origin-spanning areas
   (`regions_are_components_no_origin_span`, full statement incl. success) and, with them, the direction
   "components are never split" (`ring_components_never_split`) and "a region is the shortest covering arc of
-  what it lists" (`ring_region_is_shortest_cover`); open are success of `create_regions` and "a region lists only
-  one component when every component is shorter than half the record" — this needs the sweep in unrolled
-  coordinates (the running location stays the exact union) on top of `connect_ring_shortest` (C04) and is
+  what it lists" (`ring_region_is_shortest_cover`) and "a region lists only one component"
+  (`ring_region_lists_one_component_partial`, hypothesis `ArcUnions`); open are success of `create_regions`
+  (sections of different components must be shown disjoint: the separation half of the sweep in unrolled
+  coordinates, plus `collectionLt` on origin-spanning locations) and deriving `ArcUnions` from
+  `halfRecordComponent = false`; the component statement is
   **false** without the two exclusions (witnesses below, `KF-C06-half-record-component`,
   `KF-C06-full-record-order`).  What holds on a ring without any hypothesis is stated above:
   `create_regions_covers_each_area_once`, `regions_never_overlap`, `invariant_all_histories`. -/
